@@ -388,7 +388,7 @@ func runReaderCase(idx int, rng *hlib.Rand, h hostile, thorough bool) *caseOut {
 	}
 
 	// the Reader layer above the ChunkReader, against the byte-level model
-	if dsize <= readerCaseCap && rng.Chance(2, 3) {
+	if dsize <= readerCaseCap && rng.Chance(2, 3) && os.Getenv("C15_NO_READER") == "" {
 		d := dsize
 		if d < 0 {
 			d = 0
